@@ -218,6 +218,7 @@ def run_writer(case, res):
             n = t.count
             res.case(case, nontrivial=n >= 4 and t.count_unique < n)
             res.count("writer_docs")
+            res.observe("documents_decoded", fp.getvalue())
             decode_and_check(doc, t, typed, dict(eff_km), vkeys, user_meta, res, bad)
             if fp.getvalue() != json.dumps(doc, separators=(",", ":")) and fp.getvalue() != json.dumps(doc, separators=(",", ":"), ensure_ascii=True):
                 pass  # formatting details are not part of the layout
@@ -355,6 +356,7 @@ def run_reader(case, res):
                 kw["mapper"] = lambda parent, data: data["str"]
             fmeta = {}
             res.count("reader_docs")
+            res.observe("documents_loaded", text)
             entries = len(doc["nodes"])
             res.case(case, nontrivial=entries >= 4 and any(isinstance(e[1], int) for e in doc["nodes"]) or entries >= 6)
             try:
